@@ -90,7 +90,7 @@ func FuzzC07Exec(f *testing.F) {
 			t.Skip()
 		}
 		in := &c07Input{Unlock: unlock, Lock: lock, Flags: flags & 0xffff, Mode: c07Modes[int(mode)%len(c07Modes)],
-			Dbg: []string{"none", "recording", "default"}[int(dbg)%3],
+			Dbg: []string{"none", "recording", "default", "accessors"}[int(dbg)%4],
 			Ctx: progCtx{HasTx: true, Version: 1 + uint32(sats&1), LockTime: locktime, Sequence: sequence, Sats: uint64(sats)}, Src: "coverage-guided"}
 		fuzzJudge(t, "C07", "exec", in)
 	})
